@@ -54,6 +54,11 @@ var c04Wide = append(append([]c04Operand{}, c04Operands...),
 	c04Operand{"uint8-2", c04V("u82")},
 	c04Operand{"uint64-9", c04V("u649")},
 	c04Operand{"nil", func() rj.Expr { return rj.Nil() }},
+	// other spellings of numeric literals ("every numeric literal is a floating-point operand")
+	c04Operand{"lit1e3", func() rj.Expr { return &rj.Raw{Src: "1e3", V: 1000.0} }},
+	c04Operand{"lit25e-1", func() rj.Expr { return &rj.Raw{Src: "25e-1", V: 2.5} }},
+	c04Operand{"lit0x10", func() rj.Expr { return &rj.Raw{Src: "0x10", V: 16.0} }},
+	c04Operand{"lit.5", func() rj.Expr { return &rj.Raw{Src: ".5", V: 0.5} }},
 )
 
 func c04Mk(log *[]string) rj.Inputs {
